@@ -51,6 +51,36 @@ def check(seed, tier):
         variants.setdefault(h, {"features": [], "text": text})["features"].append(fs)
     violations = []
     verified_variants = 0
+    differential = None
+    if len(variants) > 1:
+        # The code of a function under contract depends on the feature set.  First look for a concrete
+        # difference: the same operation sequences are run against the crate built with one feature set
+        # of each variant, and everything the calls return (ids, results, traversals, final arena) is compared.
+        nrandom = 4000 if tier == "quick" else 20000
+        reps = [v["features"][0] for v in variants.values()]
+        base = P.digest(reps[0], seed, nrandom)
+        differential = {"feature_sets_compared": [",".join(f) or "(none)" for f in reps], "sequences": len(base), "bounded": True}
+        for fs in reps[1:]:
+            other = P.digest(fs, seed, nrandom)
+            differing = [a.split(" ", 1)[1] for a, b in zip(base, other) if a.split(" ", 1)[0] != b.split(" ", 1)[0]]
+            differential.setdefault("differing_sequences", {})[",".join(fs) or "(none)"] = len(differing)
+            if not differing:
+                continue
+            ops = min(differing, key=lambda o: (o.count(";"), len(o)))  # the shortest differing sequence
+            ta = "\n".join(P.digest(reps[0], seed, nrandom, transcript_ops=ops))
+            tb = "\n".join(P.digest(fs, seed, nrandom, transcript_ops=ops))
+            fa, fb = ",".join(reps[0]), ",".join(fs)
+            violations.append({"obligation": "the same calls give different results with features {%s} and {%s}" % (fa, fb),
+                               "function": "(whole crate)", "message": "differential run", "witness_ops": ops,
+                               "rendered": "differential: features {%s} vs {%s}; operations: %s\n" % (fa, fb, ops)
+                                           + "replay: /verif/check --replay <this file>   (rebuilds the crate with both feature sets and re-runs the sequence)\n"
+                                           + "--- features {%s}:\n%s\n--- features {%s}:\n%s\n" % (fa, ta, fb, tb)
+                                           + "(per call: returned id / Result; after each call every live node's traverse(); at the end the Debug rendering of the arena)"})
+        if violations:
+            cov = {"explanation": "the extracted functions differ between feature sets and a bounded differential run found calls whose results differ",
+                   "feature_sets": [",".join(fs) or "(none: no_std + alloc)" for fs in sets], "evaluations": len(sets), "distinct_variants": len(variants),
+                   "differential": differential, "exhaustive": False, "wall_s": round(time.time() - t0, 1)}
+            return cov, violations, notes
     for h, v in variants.items():
         if v["text"] == base_text:
             continue
@@ -81,6 +111,7 @@ def check(seed, tier):
         "rule": "one evaluation per feature subset; all 16 are distinct configurations and each is macro-expanded and extracted",
         "samples": [{"features": ",".join(fs) or "(none)", "extracted_sha256": h[:16]} for h, v in variants.items() for fs in v["features"]][:16],
         "distinct_variants": len(variants),
+        "differential": differential,
         "exhaustive": True,
         "wall_s": round(time.time() - t0, 1),
     }
